@@ -26,6 +26,8 @@ import (
 	"strings"
 	"time"
 
+	"seehuhn.de/go/postscript"
+
 	"verif/mc"
 	"verif/model/pscmp"
 	"verif/model/psmodel"
@@ -500,6 +502,72 @@ func seqFamily(depth int, budget time.Duration) mc.Family {
 	}
 }
 
+// refusedDefinitionsFamily: `key instance category defineresource` either
+// defines the resource or fails; a definition that is refused is not made.
+// After a failing call, a second program on the same interpreter looks the key
+// up: it must find what was there before (nothing, or the instance an earlier,
+// accepted call had defined).
+func refusedDefinitionsFamily(budget time.Duration) mc.Family {
+	cats := []string{"/CMap", "/Font", "/ProcSet", "/Encoding", "/NoSuchCategory"}
+	insts := []string{"1", "(s)", "[1 2]", "<< >>", "<< /CodeMap 1 >>", "<< /CodeMap << >> >>", "{}", "/n", "true", "B 0 get", "mark", "D"}
+	keys := []string{"/K", "/", "(K)", "1"}
+	firsts := []string{"", "<< /x 1 >>", "7"}
+	n := len(cats) * len(insts) * len(keys) * len(firsts)
+	return mc.Family{
+		Name: "refused-definitions-are-not-made", Items: n, Budget: budget,
+		Rule: fmt.Sprintf("%d programs: (an optional earlier definition of one of %d values,) then `key instance category defineresource` for %d keys x %d instances x %d categories in a first Execute call; when that call fails, `key category findresource` in a second call on the same interpreter must behave as it does on an interpreter that never saw the failing call (same error class, or the same earlier value); non-trivial = the defining call failed", n, len(firsts)-1, len(keys), len(insts), len(cats)),
+		Body: func(c *mc.Ctx, item int) mc.Verdict {
+			cat := cats[item%len(cats)]
+			inst := insts[(item/len(cats))%len(insts)]
+			key := keys[(item/len(cats)/len(insts))%len(keys)]
+			first := firsts[item/len(cats)/len(insts)/len(keys)]
+			pre := preamble + " "
+			if first != "" {
+				pre += key + " " + first + " " + cat + " defineresource pop "
+			}
+			look := key + " " + cat + " findresource"
+			run := func(withFailingCall bool) (string, bool) {
+				intp := postscript.NewInterpreter()
+				intp.MaxOps = 100000
+				if err := intp.ExecuteString(pre); err != nil {
+					return "setup:" + pscmp.ErrName(err), false
+				}
+				failed := false
+				if withFailingCall {
+					failed = intp.ExecuteString(key+" "+inst+" "+cat+" defineresource") != nil
+				}
+				intp.Stack = intp.Stack[:0]
+				err := intp.ExecuteString(look)
+				out := "error:" + pscmp.ErrName(err)
+				if err == nil {
+					out = "found: " + pscmp.ShowStack(intp.Stack)
+				}
+				return out, failed
+			}
+			got, failed := run(true)
+			c.Step()
+			if !failed {
+				return mc.Pass("accepted-or-setup-failed", false)
+			}
+			want, _ := run(false)
+			prog := strings.TrimSpace(strings.TrimPrefix(pre, preamble)+" ") + " | " + key + " " + inst + " " + cat + " defineresource (fails) | " + look
+			if got != want {
+				v := mc.Fail("C02:defineresource:refused-definition-was-made", fmt.Sprintf("calls `%s`: the lookup gives %s; without the failing call it gives %s", prog, got, want))
+				v.Render = prog
+				return v
+			}
+			v := mc.Pass(want[:min(len(want), 20)], true)
+			if c.Render() {
+				v.Render = prog + " → " + got
+			}
+			return v
+		},
+		Describe: func(item int) string {
+			return fmt.Sprintf("%s %s %s defineresource", keys[(item/len(cats)/len(insts))%len(keys)], insts[(item/len(cats))%len(insts)], cats[item%len(cats)])
+		},
+	}
+}
+
 func main() {
 	mc.Main(mc.Program{
 		Property: "C02",
@@ -528,6 +596,7 @@ func main() {
 				tupleFamily("operand-tuples", spaces, budget),
 				boundaryFamily(budget),
 				seqFamily(depth, budget),
+				refusedDefinitionsFamily(budget),
 			}
 		},
 	})
